@@ -666,6 +666,17 @@ def r4_channel_pairs(repo=None):
                 return None
             t = look(x.test)
             terms = t.values if isinstance(t, ast.BoolOp) and isinstance(t.op, ast.Or) else [t]
+            # conditions of the enclosing `if`s inside the loop hold as well when the drop is reached (`if a: if b: continue`)
+            outer = []
+            ch_, an_ = x, par.get(x)
+            while an_ is not None and an_ is not lp:
+                if isinstance(an_, ast.If):
+                    if any(ch_ is y for y in an_.body):
+                        ot = look(an_.test)
+                        outer += list(ot.values) if isinstance(ot, ast.BoolOp) and isinstance(ot.op, ast.And) else [ot]
+                    elif any(ch_ is y for y in an_.orelse):
+                        outer.append(ast.UnaryOp(ast.Not(), an_.test))
+                ch_, an_ = an_, par.get(an_)
             ok_terms = []
             bad_term = None
             for term in terms:
@@ -673,7 +684,7 @@ def r4_channel_pairs(repo=None):
                     ok_terms.append("a pair equal to one already kept is skipped")
                     continue
                 term_d = look(term)
-                conj = term_d.values if isinstance(term_d, ast.BoolOp) and isinstance(term_d.op, ast.And) else [term_d]
+                conj = (list(term_d.values) if isinstance(term_d, ast.BoolOp) and isinstance(term_d.op, ast.And) else [term_d]) + outer
                 has_rec = any(norm(ast.unparse(c)) == "args.recursive" for c in conj)
                 rest = [c for c in conj if norm(ast.unparse(c)) != "args.recursive"]
                 below = is_below_test(rest[0]) if len(rest) == 1 else None
